@@ -152,6 +152,46 @@ def _add_node(fn) -> List[str]:
     return _order("add_node", ops, [".graphAddNode", ".indexSet", ".classAppend"], set())
 
 
+
+# ---------------------------------------------------------------------------------------------- the relation-index key
+_REL_KEY = {"form": "R.wrapped_field"}
+
+
+def _relation_key_form(cb) -> str:
+    """Under which key `add_relation`, `relation_exists` and `remove_node` file a relation in `_relation_index`: the
+    relation's own wrapped field (`R.wrapped_field`) or the field of the descriptor that manages it
+    (`self._indexed_field(R)`, whose body is pinned below). The model has ONE field per descriptor, which both forms denote
+    for the universes of the correspondence; what matters — and what is checked here — is that all three sites use the
+    SAME key (a purge under another key than the one the relation was filed under leaves index entries behind: seeded
+    change C14-r6m2)."""
+    import re
+    forms = set()
+    for name in ("add_relation", "relation_exists"):
+        fns = [f for f in cb if isinstance(f, ast.FunctionDef) and f.name == name]
+        if len(fns) != 1:
+            raise TranslationError(f"SymbolGraph.{name} not found (or defined twice)")
+        rel = fns[0].args.args[1].arg
+        text = " ".join(_u(st) for st in fns[0].body if not _skippable(st))
+        found = set(re.findall(r"self\._relation_index(?:\.get|\.setdefault)?[\[(]\s*(self\._indexed_field\(" + rel + r"\)|" + rel + r"\.wrapped_field)", text))
+        found = {f.replace(rel, "R") for f in found}
+        if len(found) != 1:
+            raise TranslationError(f"{name}: the key of _relation_index is not recognised: {sorted(found)}")
+        forms |= found
+    if len(forms) != 1:
+        raise TranslationError(f"add_relation / relation_exists file a relation under different keys: {sorted(forms)}")
+    form = forms.pop()
+    if form == "self._indexed_field(R)":
+        fns = [f for f in cb if isinstance(f, ast.FunctionDef) and f.name == "_indexed_field"]
+        if len(fns) != 1:
+            raise TranslationError("_indexed_field not found")
+        body = [_u(st) for st in fns[0].body if not _skippable(st)]
+        r = fns[0].args.args[-1].arg
+        want = [f"descriptor = {r}.wrapped_field.property_descriptor",
+                f"if descriptor is None:\n    return {r}.wrapped_field", "return descriptor.wrapped_field"]
+        if body != want:
+            raise TranslationError(f"_indexed_field changed: {body}")
+    return form
+
 # ---------------------------------------------------------------------------------------------- remove_node
 def _edges_operand(e: ast.AST) -> Optional[str]:
     if isinstance(e, ast.Call) and _u(e.func) == "list" and len(e.args) == 1 and not e.keywords:
@@ -190,7 +230,8 @@ def _remove_node(fn) -> List[str]:
             if None in kinds or len(set(kinds)) != len(kinds):
                 raise TranslationError(f"remove_node: unsupported edge list: {_u(s.iter)}")
             body = [_subst(b, _names({x.id: r for x, r in zip(tg.elts, ("_s", "_t", "_r"))})) for b in s.body if not _skippable(b)]
-            if [_u(b) for b in body] != ["self._relation_index.get(_r.wrapped_field, set()).discard((_s, _t))"]:
+            key = _REL_KEY["form"].replace("R", "_r")
+            if [_u(b) for b in body] != [f"self._relation_index.get({key}, set()).discard((_s, _t))"]:
                 raise TranslationError(f"remove_node: unsupported body of the purge loop: {[_u(b) for b in body]}")
             ops.append(f".relDiscardIncident {'true' if 'in' in kinds else 'false'} {'true' if 'out' in kinds else 'false'}")
         else:
@@ -405,6 +446,7 @@ def tables_of(symbol_graph_source: str, utils_source: str) -> Dict[str, List[str
             [_u(s) for s in props[0].body if not _skippable(s)] != ["return self.instance_reference()"]:
         raise TranslationError("WrappedInstance.instance is no longer the weak reference's referent")
     utils = ast.parse(utils_source)
+    _REL_KEY["form"] = _relation_key_form(cb)
     return {
         "addNode": _add_node(_function(cb, "add_node", 2, "SymbolGraph.")),
         "removeNode": _remove_node(_function(cb, "remove_node", 2, "SymbolGraph.")),
